@@ -11,8 +11,11 @@ int main(int argc, char** argv) {
 		std::vector<float> c; for (auto v : j["c"].ints()) c.push_back((float)v); std::vector<double> rho; for (auto& r : j["knots"].a) rho.push_back(rd(r));
 		int worder = (int)j["order"].integer(); double cmax = 0; for (float v : c) cmax = std::max(cmax, (double)std::fabs(v));
 		// layouts: the convolved dimension alone, or as dimension `pos` of a separable 2-D / 3-D table
-		for (int layout = 0; layout < 4; layout++) {
-			int nd = layout == 0 ? 1 : (layout == 3 ? 3 : 2); int pos = layout == 0 ? 0 : (layout == 1 ? 0 : (layout == 2 ? 1 : 1));
+		// (layout 4 rotates with the case number through the positions where a dimension other than 0 or 1 is convolved:
+		// dimension 2 of a 3-D table, dimensions 2 and 3 of a 4-D table)
+		static const int LND[] = {1, 2, 2, 3, 0}, LPOS[] = {0, 0, 1, 1, 0}, XND[] = {3, 4, 4}, XPOS[] = {2, 2, 3};
+		for (int layout = 0; layout < 5; layout++) {
+			int nd = layout < 4 ? LND[layout] : XND[nc % 3]; int pos = layout < 4 ? LPOS[layout] : XPOS[nc % 3];
 			TableSpec s; s.ndim = nd; std::vector<std::vector<float>> fac(nd); std::vector<std::vector<double>> okn(nd); std::vector<int> oord(nd);
 			for (int d = 0; d < nd; d++) {
 				if (d == pos) { s.order.push_back(n); s.knots.push_back(t); fac[d] = c; }
@@ -39,8 +42,8 @@ int main(int argc, char** argv) {
 					std::vector<std::pair<double, double>> pv;
 					if (pts.t == JV::ARR) for (auto& e : pts.a) pv.push_back({rd(e[0]), rd(e[1])});
 					for (auto& xv : pv) {
-						// the evaluator's own defect at a repeated knot on the upper end of full support (C01 known finding) is not convolution's business
-						{ size_t na = rho.size() - worder - 1; if (xv.first == rho[na] && rho[na - 1] == rho[na]) continue; }
+						// a convolved knot field whose fully supported range has zero width cannot be evaluated at that one point (C01 known finding): not convolution's business
+						{ size_t na = rho.size() - worder - 1; if (xv.first == rho[na] && rho[worder] == rho[na]) continue; }
 						for (int rep = 0; rep < (nd == 1 ? 1 : 2); rep++) {
 							std::vector<double> x(nd); LD other = 1;
 							for (int d = 0; d < nd; d++) { if (d == pos) { x[d] = xv.first; continue; } double lo = okn[d][oord[d]], hi = okn[d][okn[d].size() - oord[d] - 1]; x[d] = lo + (hi - lo) * (0.1 + 0.8 * rng.unit());
